@@ -4,7 +4,7 @@ use log::*;
 use std::collections::HashMap;
 use std::env;
 use std::fs;
-use std::path::{Path, PathBuf};
+use std::path::{Component, Path, PathBuf};
 use stylua_lib::Config;
 use stylua_lib::SortRequiresConfig;
 
@@ -72,7 +72,9 @@ impl ConfigResolver<'_> {
 
         let root = self.get_configuration_search_root();
 
-        let absolute_path = self.current_directory.join(path);
+        // Resolve `.` and `..` components first: the search walks up with `Path::parent`, which is purely lexical, so
+        // for `dir/../file.lua` it would otherwise look into `dir` (and for `../file.lua` into the current directory)
+        let absolute_path = normalize_path(&self.current_directory.join(path));
         let parent_path = &absolute_path
             .parent()
             .with_context(|| format!("no parent directory found for {}", path.display()))?;
@@ -85,7 +87,7 @@ impl ConfigResolver<'_> {
                     Ok(self.default_configuration)
                 } else {
                     // Command line options take priority over `.editorconfig`, as they do over `stylua.toml`
-                    editorconfig::parse(Config::default(), path)
+                    editorconfig::parse(Config::default(), &absolute_path)
                         .map(|config| load_overrides(config, self.opt))
                         .context("could not parse editorconfig")
                 }
@@ -224,6 +226,21 @@ impl ConfigResolver<'_> {
 }
 
 /// Searches the directory for the configuration toml file (i.e. `stylua.toml` or `.stylua.toml`)
+/// Lexically removes `.` and `..` components from an absolute path
+fn normalize_path(path: &Path) -> PathBuf {
+    let mut normalized = PathBuf::new();
+    for component in path.components() {
+        match component {
+            Component::CurDir => (),
+            Component::ParentDir => {
+                normalized.pop();
+            }
+            component => normalized.push(component.as_os_str()),
+        }
+    }
+    normalized
+}
+
 fn find_toml_file(directory: &Path) -> Option<PathBuf> {
     for name in &CONFIG_FILE_NAME {
         let file_path = directory.join(name);
